@@ -66,7 +66,8 @@ def render_items(items, lang, fid, out):
                 else:
                     out.append(("code", f"int F{fid}_L{ln};"))
         elif t == "blank":
-            out.append(("blank", ""))
+            # optional second element: a line holding only a form feed / vertical tab (page separators)
+            out.append(("blank", {"ff": "\x0c", "vt": "\x0b"}.get(it[1] if len(it) > 1 else None, "")))
         elif t == "comment":
             out.append(("comment", "! note" if lang == "f90" else "// note"))
         elif t == "raw":
